@@ -138,6 +138,20 @@ def gen(ctx, rng):
 
 
 def run_case(ctx, case, ir, do_v=True):
+    """-> (V disagreement or None, property failure or None); a package call that RAISES on a valid case is a failing input"""
+    try:
+        return run_case_(ctx, case, ir, do_v)
+    except Exception as e:
+        import traceback
+        tb = traceback.extract_tb(e.__traceback__)
+        where = [f for f in tb if '/compmech/' in f.filename]
+        if not where:
+            raise           # a defect of this harness, not of the package
+        return None, ('%s raised %s: %s for a valid non-linear evaluation (nx, ny = %r, per-point laminate table: %r)'
+                      % (where[-1].name, type(e).__name__, e, tuple(case['nxy']), bool(case.get('table'))))
+
+
+def run_case_(ctx, case, ir, do_v=True):
     fns, consts = ir[case['lean_model']]
     p = pc.make_panel(case)
     if case.get('ncte'):
@@ -212,15 +226,28 @@ def assembly_case(ctx, rng):
     c = np.array([rng.uniform(-1, 1) for _ in range(size)]) * h
     d = np.array([rng.uniform(-1, 1) for _ in range(size)]) * h * 0.5
     fint = lambda cc: np.array(pc.quiet(asm.calc_fint, np.ascontiguousarray(cc), silent=True))
+    # call history on the SAME assembly before the quantities are requested: raw (un-finalized) evaluations, other states
+    prelude = rng.choice([[], [], ['kT raw'], ['k0 raw'], ['kT raw', 'fint'], ['k0', 'kT raw'], ['fint', 'kT raw', 'k0']])
+    for op in prelude:
+        c0 = np.array([rng.uniform(-1, 1) for _ in range(size)]) * h
+        if op == 'kT raw':
+            pc.quiet(asm.calc_kT, c=c0, silent=True, finalize=False)
+        elif op == 'k0 raw':
+            pc.quiet(asm.calc_k0, silent=True, finalize=False)
+        elif op == 'k0':
+            pc.quiet(asm.calc_k0, silent=True)
+        else:
+            fint(c0)
     kT = pc.quiet(asm.calc_kT, c=c, silent=True).toarray()
     if np.abs(kT - kT.T).max() > 1e-12 * np.abs(kT).max():
-        return dict(c1=c1, c2=c2), 'assembly tangent not symmetric'
+        return dict(c1=c1, c2=c2, history=prelude), 'assembly tangent not symmetric (calls made before on the same assembly: %r)' % (prelude,)
     deriv = (-fint(c + 2 * d) + 8 * fint(c + d) - 8 * fint(c - d) + fint(c - 2 * d)) / 12.
     want = kT @ d
     sc = max(np.abs(want).max(), 1e-300)
     if np.abs(deriv - want).max() > 1e-8 * sc:
-        return dict(c1=c1, c2=c2), 'assembly kT.dc differs from the derivative of the assembly internal force: rel %.3e' % (
-            np.abs(deriv - want).max() / sc)
+        return dict(c1=c1, c2=c2, history=prelude), ('assembly kT.dc differs from the derivative of the assembly internal force: '
+                                                     'rel %.3e (calls made before on the same assembly: %r)' % (
+                                                         np.abs(deriv - want).max() / sc, prelude))
     if np.abs(fint(np.zeros(size))).max() > 0:
         return dict(c1=c1, c2=c2), 'assembly internal force does not vanish at the undeformed state'
     return None, None
@@ -247,7 +274,7 @@ def correspondence(ctx):
         if v_bad:
             ctx.violation(v_bad, dict(case=case, tie='V num kernels'), found_input=False)
             return
-    for t in range(ctx.scale(3, 25)):
+    for t in range(ctx.scale(12, 60)):
         c, bad = assembly_case(ctx, rng)
         ctx.evaluations += 1
         if bad:
